@@ -42,7 +42,10 @@ def language_totals_add(prj: Project) -> dict:
     try:
         it.call(add, [entry], {}, self_obj=me)
     except (Unknown, PyRaise) as e:
-        raise AnalysisError(f"{add.disp}: cannot evaluate the accumulation symbolically ({e})")
+        try:
+            return _probe_add(prj, ci, add), add
+        except (Unknown, PyRaise) as e2:
+            raise AnalysisError(f"{add.disp}: cannot evaluate the accumulation, neither symbolically ({e}) nor on representative entries ({e2})")
     out = {}
     for f in FIELDS:
         new = me.fields.get(f)
@@ -51,6 +54,57 @@ def language_totals_add(prj: Project) -> dict:
         except Unknown:
             raise AnalysisError(f"{add.disp}: field {f} ends up as {new!r}")
     return out, add
+
+
+def _probe_add(prj: Project, ci, add) -> dict:
+    """LanguageTotals.add evaluated on concrete entries (functions of 7, 20, 45 and 90 lines stand for the four categories): the
+    increments of every field as an affine function of entry.loc and of the number of functions per category, determined from a
+    base entry, one unit step per quantity and one mixed entry (which must agree with the affine form: additivity)"""
+    M = prj.cls("codelimit.common.Measurement:Measurement")
+    L = prj.cls("codelimit.common.Location:Location")
+    E = prj.cls("codelimit.common.SourceFileEntry:SourceFileEntry")
+    REP = (7, 20, 45, 90)
+
+    def run(loc, counts):
+        it = MiniInterp(prj, max_steps=400000, max_depth=40)
+        ms = []
+        for cat, n in enumerate(counts):
+            for k in range(n):
+                ms.append(it.construct(M, [f"f{cat}_{k}", it.construct(L, [1, 1], {}, None, add), it.construct(L, [2, 1], {}, None, add), REP[cat]], {}, None, add))
+        entry = it.construct(E, ["a/b.py", "sum", "Python", loc, ms], {}, None, add)
+        me = it.construct(ci, ["Python"], {}, None, add)
+        before = {f: me.fields.get(f) for f in FIELDS}
+        it.call(add, [entry], {}, self_obj=me)
+        out = {}
+        for f in FIELDS:
+            a, b = before[f], me.fields.get(f)
+            if not isinstance(a, int) or not isinstance(b, int):
+                raise Unknown(f"field {f} is {b!r} after add")
+            out[f] = b - a
+        return out
+    base = run(1000, (0, 0, 0, 0))
+    dloc = run(2000, (0, 0, 0, 0))
+    units = [run(1000, tuple(1 if i == j else 0 for i in range(4))) for j in range(4)]
+    mixed = run(3000, (3, 2, 4, 5))
+    out = {}
+    for f in FIELDS:
+        a = (dloc[f] - base[f]) / 1000
+        b = [units[j][f] - base[f] for j in range(4)]
+        c = base[f] - a * 1000
+        predicted = c + a * 3000 + sum(bj * n for bj, n in zip(b, (3, 2, 4, 5)))
+        if predicted != mixed[f] or a != int(a) or c != int(c):
+            raise Unknown(f"field {f} is not an affine function of entry.loc and the number of functions per category")
+        terms = {}
+        if a:
+            terms["entry.loc"] = int(a)
+        if b == [b[0]] * 4 and b[0]:
+            terms["len(ms)"] = b[0]
+        else:
+            for j, bj in enumerate(b):
+                if bj:
+                    terms[f"cp{j}"] = bj
+        out[f] = Lin(terms, int(c))
+    return out
 
 
 WANT = {
